@@ -29,17 +29,24 @@ Example cw_structure_witness_fixed :
               cw_parse_text txt <> None.
 Proof. eexists. split; [vm_compute; reflexivity|]. split; vm_compute; [reflexivity|discriminate]. Qed.
 
-(* F-C17-b.  EmitNumber keeps six decimals: 0.1234567 comes back as 0.123457, 0.0000001 as 0 *)
+(* F-C17-b.  EmitNumber as pinned (mode rt = false) keeps six decimals: 0.1234567 comes back as 0.123457,
+   0.0000001 as 0 *)
 Theorem cw_number_precision_refuted :
-  cw_parse_literal (cw_emit_value CwMatch 2 (CwNum false [0] [1; 2; 3; 4; 5; 6; 7]) ++ [10]) = Some (CwNum false [0] [1; 2; 3; 4; 5; 7]) /\
+  cw_parse_literal (cw_emit_number_m false false [0] [1; 2; 3; 4; 5; 6; 7] ++ [10]) = Some (CwNum false [0] [1; 2; 3; 4; 5; 7]) /\
   cw_veqb (CwNum false [0] [1; 2; 3; 4; 5; 6; 7]) (CwNum false [0] [1; 2; 3; 4; 5; 7]) = false /\
-  cw_parse_literal (cw_emit_value CwMatch 2 (CwNum false [0] [0; 0; 0; 0; 0; 0; 1]) ++ [10]) = Some (CwNum false [0] [0; 0; 0; 0; 0; 0]).
+  cw_parse_literal (cw_emit_number_m false false [0] [0; 0; 0; 0; 0; 0; 1] ++ [10]) = Some (CwNum false [0] [0; 0; 0; 0; 0; 0]).
 Proof. repeat split; vm_compute; reflexivity. Qed.
 
-(* round-half-even on the exact value: 0.0078125 = 2^-7 prints as 0.007812 *)
+(* round-half-even on the exact value: 0.0078125 = 2^-7 printed as 0.007812 by the pinned code *)
 Example cw_number_half_even :
-  cw_emit_number false [0] [0; 0; 7; 8; 1; 2; 5] = [48; 46; 48; 48; 55; 56; 49; 50] /\
-  cw_emit_number false [0] [9; 9; 9; 9; 9; 9; 5] = [49; 46; 48; 48; 48; 48; 48; 48].
+  cw_emit_number_m false false [0] [0; 0; 7; 8; 1; 2; 5] = [48; 46; 48; 48; 55; 56; 49; 50] /\
+  cw_emit_number_m false false [0] [9; 9; 9; 9; 9; 9; 5] = [49; 46; 48; 48; 48; 48; 48; 48].
+Proof. split; vm_compute; reflexivity. Qed.
+
+(* the round-trip form prints what it is given, padded to six decimals *)
+Example cw_number_roundtrip_form :
+  cw_emit_number_m true false [0] [1; 2; 3; 4; 5; 6; 7] = [48; 46; 49; 50; 51; 52; 53; 54; 55] /\
+  cw_emit_number_m true true [5] [] = [45; 53; 46; 48; 48; 48; 48; 48; 48].
 Proof. split; vm_compute; reflexivity. Qed.
 
 (* F-C17-c.  The pinned chunk rule (copy with `while ( *yptr )`, mode whole = false): the rest of the chunk
